@@ -204,13 +204,16 @@ def all_queries(view, rels, clss, rng=None, budget=None, hops_full=False):
     two = [["two", n, r1, c1, r2, c2] for n in N for r1 in rels for c1 in clss for r2 in rels for c2 in clss]
     sp = [["sp", a, z, r] for a in N for z in N for r in [None] + R]
     hops = []
-    hopsets = [[]] + [[h] for h in ids] + [[a, b] for a, b in itertools.combinations(ids, 2)] + [["nope"]]
+    pairs2 = [[a, b] for a, b in itertools.combinations(ids, 2)]
+    if hops_full and len(ids) >= 4:
+        pairs2 = pairs2[:1] + pairs2[-1:]        # keeps the exhaustive family affordable
+    hopsets = [[]] + [[h] for h in ids] + pairs2 + [["nope"]]
     for a in ids:
         for z in ids:
             for hs in hopsets:
                 hops.append(["hops", a, z, hs, 100])
                 if hops_full:
-                    for c in ((0, 1, 2) if len(ids) <= 3 else (1, 2)):
+                    for c in ((0, 1) if len(ids) <= 3 else (2,)):
                         hops.append(["hops", a, z, hs, c])
     hops.append(["hops", "nope", ids[0] if ids else "x", [], 100])
     if ids:
@@ -436,7 +439,10 @@ def compare(view, q, impl, model):
     return None if canon_reply(q, impl) == canon_reply(lean_query(q), model) else "value"
 
 
-def run_cases(ctx, res, cases, budget, tag, hops_full=False):
+_STATE = {"exhaustive_judged": False, "judged": Result()}
+
+
+def run_cases(ctx, res, cases, budget, tag, hops_full=False, judge=False):
     rng = ctx.sub_rng("queries/" + tag)
     lines, meta = [], []
     for case in cases:
@@ -472,6 +478,8 @@ def run_cases(ctx, res, cases, budget, tag, hops_full=False):
                 res.count("%s:%s" % (q[0], "empty" if not i[1] else "nonempty"))
             if nontrivial(view, q, i):
                 res.nontrivial.add(canon([vc, q]))
+            if judge:
+                check_query(view, case, q, i, _STATE["judged"])     # the oracle's verdict on the same answer (saves a second pass)
             why = compare(view, q, i, m)
             if why:
                 res.disagreements.append({"case": {"graphs": case["graphs"], "ops": case["ops"], "target": case["target"], "query": q,
@@ -506,7 +514,9 @@ def correspondence(ctx, res):
     cases = [gen_case(rng, rng.choice([2, 3, 4, 5, 6, 7])) for _ in range(n)]
     run_cases(ctx, res, cases, ctx.scale(110, 200), "random")
     if ctx.thorough:
-        run_cases(ctx, res, list(exhaustive_cases()), None, "exhaustive", hops_full=True)
+        run_cases(ctx, res, list(exhaustive_cases()), None, "exhaustive", hops_full=True, judge=True)
+        _STATE["exhaustive_judged"] = True
+        ctx.notes.append("the property oracle judged the implementation's answers of the exhaustive family inside the correspondence pass")
         ctx.notes.append("correspondence ran every graph on <= 4 nodes over 2 relations x 2 classes up to isomorphism, all queries")
 
 
@@ -630,13 +640,17 @@ def check_query(view, case, q, rep, res):
             exp = sorted(k for m in view.adj[n] if view.r(n, m) == r1 and view.cls[m] == c1
                          for k in view.adj[m] if view.r(m, k) == r2 and view.cls[k] == c2 and k != n)
             if rep[0] == "ok":
-                for k in sorted(set(rep[1]) - set(exp)):
-                    via = [m for m in view.adj[n] if view.r(n, m) == r1 and view.cls[m] == c1 and k in view.adj[m]
-                           and view.cls[k] == c2 and k != n and view.r(m, k) != r2]
-                    bad("%s:extra:%s" % (op, "second-hop-wrong-relation" if via else "unexplained"),
-                        "derived helper returns a node whose second edge is not a %s edge" % r2, expected=exp, observed=sorted(rep[1]))
-                if set(exp) - set(rep[1]) or len(rep[1]) != len(set(rep[1])) and not (set(rep[1]) - set(exp)):
-                    bad("%s:missing-or-duplicate" % op, "derived helper result differs from its definition", expected=exp, observed=sorted(rep[1]))
+                # multiset comparison: one occurrence per (first-hop node, second-hop node) pair
+                from collections import Counter
+                co, ce = Counter(rep[1]), Counter(exp)
+                for k in sorted(co):
+                    if co[k] > ce[k]:
+                        via = [m for m in view.adj[n] if view.r(n, m) == r1 and view.cls[m] == c1 and k in view.adj[m]
+                               and view.cls[k] == c2 and k != n and view.r(m, k) != r2]
+                        bad("%s:extra:%s" % (op, "second-hop-wrong-relation" if len(via) >= co[k] - ce[k] else "unexplained"),
+                            "derived helper returns a node whose second edge is not a %s edge" % r2, expected=exp, observed=sorted(rep[1]))
+                if any(co[k] < ce[k] for k in ce):
+                    bad("%s:missing" % op, "derived helper result lacks a node of its definition", expected=exp, observed=sorted(rep[1]))
                 return
         else:
             exp = sorted(m for m in view.adj[n] if view.r(n, m) == "connects" and view.cls[m] == "ConnectionPoint")
@@ -690,7 +704,9 @@ def oracle(ctx, res, n=None, budget=None):
     n = n or ctx.scale(250, 2500)
     cases = [gen_case(rng, rng.choice([2, 3, 4, 5, 6, 7])) for _ in range(n)]
     oracle_cases(ctx, res, cases, budget or ctx.scale(150, 250), "random")
-    if ctx.thorough:
+    for v in _STATE["judged"].violations:        # verdicts collected during the exhaustive correspondence pass
+        res.violation(v["signature"], v["what"], v["case"], expected=v.get("expected"), observed=v.get("observed"))
+    if ctx.thorough and not _STATE["exhaustive_judged"]:
         oracle_cases(ctx, res, exhaustive_cases(), None, "exhaustive", hops_full=True)
         ctx.notes.append("oracle ran every graph on <= 4 nodes over 2 relations x 2 classes up to isomorphism (and <= 3 nodes with self-loops), all queries")
     res.sample({"oracle": "set comprehension over the harness's own node/edge lists; all simple paths by plain recursion; "
